@@ -20,8 +20,10 @@ use serde_json::{json, Value};
 use std::cell::Cell;
 use std::sync::{Arc, Condvar, Mutex};
 use std::time::{Duration, Instant};
-use zipora::fsa::token::TokenManager;
+use zipora::fsa::token::{with_reader_token, with_writer_token, ReaderTokenAccess, TokenAccess, TokenCache, TokenManager, WriterTokenAccess};
 use zipora::fsa::verif_sched;
+use zipora::fsa::CompressedSparseTrie;
+use zipora::error::ZiporaError;
 use zipora::fsa::version_sync::{
     ConcurrencyLevel, LazyFreeItem, LazyFreeList, ReaderToken, VersionManager, WriterToken,
 };
@@ -38,21 +40,38 @@ Definition ok (c : case_t) : bool :=
 // operations
 // ------------------------------------------------------------------------------------------------
 #[derive(Clone, Copy, PartialEq, Debug)]
-enum Op { AcqR, AcqW, TmAcqR, TmAcqW, Drop(usize), Ret(usize), Clear, Retire, Reclaim }
+enum Op { AcqR, AcqW, TmAcqR, TmAcqW, Drop(usize), Ret(usize), Clear, Retire, Reclaim,
+    // ---- oracle breadth (a run whose programs contain one of these is judged by the oracle only: cell `concx/L<level>`)
+    /// `with_reader_token` / `with_writer_token` on the shared TokenManager: acquire through the thread cache, a schedule point
+    /// while the closure holds the token, return to the thread cache
+    WithR, WithW,
+    /// the held token i is put into a mailbox shared by the threads / the newest token of the mailbox is taken out: tokens are
+    /// released (dropped, cached, cleared) by a thread other than the one that acquired them
+    Give(usize), Take,
+    /// 40 items retired at once (the queue passes one and two bulk thresholds) / reclaim only when `should_bulk_process()`
+    RetireN, ReclaimBulk,
+    /// `TokenManager::clear_all_stats()` in the middle of the traffic
+    ClearStats,
+}
 
 impl Op {
     fn name(&self) -> &'static str {
         match self {
             Op::AcqR => "AcqR", Op::AcqW => "AcqW", Op::TmAcqR => "TmAcqR", Op::TmAcqW => "TmAcqW",
             Op::Drop(_) => "Drop", Op::Ret(_) => "Ret", Op::Clear => "Clear", Op::Retire => "Retire", Op::Reclaim => "Reclaim",
+            Op::WithR => "WithR", Op::WithW => "WithW", Op::Give(_) => "Give", Op::Take => "Take", Op::RetireN => "RetireN",
+            Op::ReclaimBulk => "ReclaimBulk", Op::ClearStats => "ClearStats",
         }
     }
-    fn arg(&self) -> usize { match self { Op::Drop(i) | Op::Ret(i) => *i, _ => 0 } }
+    fn is_ext(&self) -> bool { matches!(self, Op::WithR | Op::WithW | Op::Give(_) | Op::Take | Op::RetireN | Op::ReclaimBulk | Op::ClearStats) }
+    fn arg(&self) -> usize { match self { Op::Drop(i) | Op::Ret(i) | Op::Give(i) => *i, _ => 0 } }
     fn parse(name: &str, arg: usize) -> Option<Op> {
         Some(match name {
             "AcqR" => Op::AcqR, "AcqW" => Op::AcqW, "TmAcqR" => Op::TmAcqR, "TmAcqW" => Op::TmAcqW,
             "Drop" => Op::Drop(arg), "Ret" => Op::Ret(arg), "Clear" => Op::Clear,
-            "Retire" => Op::Retire, "Reclaim" => Op::Reclaim, _ => return None,
+            "Retire" => Op::Retire, "Reclaim" => Op::Reclaim,
+            "WithR" => Op::WithR, "WithW" => Op::WithW, "Give" => Op::Give(arg), "Take" => Op::Take, "RetireN" => Op::RetireN,
+            "ReclaimBulk" => Op::ReclaimBulk, "ClearStats" => Op::ClearStats, _ => return None,
         })
     }
     fn coq(&self) -> String {
@@ -160,6 +179,8 @@ struct RunState {
     abort: bool,
     progress: u64,
     vm: Arc<VersionManager>,
+    mail: Vec<TokInfo>,       // tokens in the mailbox: live, owned by no thread
+    stats_cleared: bool,
 }
 struct Ctl { m: Mutex<RunState>, cv: Condvar }
 
@@ -179,6 +200,7 @@ impl RunState {
         let mut held = [0u64; 2];
         let mut maybe = [0u64; 2];
         let mut fails: Vec<String> = vec![];
+        for h in &self.mail { if h.kind < 2 { held[h.kind as usize] += 1; } }
         for r in self.th.iter() {
             for h in &r.held { if h.kind < 2 { held[h.kind as usize] += 1; } }
             for c in r.cached.iter().flatten() { if c.kind < 2 { maybe[c.kind as usize] += 1; } }
@@ -190,16 +212,21 @@ impl RunState {
         if self.level == 3 && held[1] > 1 {
             fails.push(format!("(i) {} writer tokens are held at once in OneWriteMultiRead (step {})", held[1], step));
         }
-        for (ti, r) in self.th.iter().enumerate() {
-            for h in &r.held {
+        let nth = self.th.len();
+        let owners = || self.th.iter().enumerate().map(|(ti, r)| (ti, &r.held)).chain(std::iter::once((nth, &self.mail)));
+        for (ti, hs) in owners() {
+            for h in hs {
                 if h.kind < 2 && min > h.version {
                     fails.push(format!("(ii) min_version {} exceeds version {} of a token held by thread {} (step {})", min, h.version, ti, step));
+                }
+                if h.kind < 2 && !vm.validate_token_version(h.version) {
+                    fails.push(format!("(ii) validate_token_version({}) is false for a token held by thread {} (min_version {}, current_version {}, step {})", h.version, ti, min, cur, step));
                 }
             }
         }
         for a in &self.th[t].freed_now {
-            for (ti, r) in self.th.iter().enumerate() {
-                for h in &r.held {
+            for (ti, hs) in owners() {
+                for h in hs {
                     if h.kind < 2 && *a >= h.version {
                         fails.push(format!("(ii) item retired at version {} was handed to the free callback while thread {} holds a token of version {} (step {})", a, ti, h.version, step));
                     }
@@ -305,6 +332,7 @@ fn hook(id: u32) {
 struct Shared {
     tm: Arc<TokenManager>,
     lazy: Mutex<LazyFreeList>,
+    mail: Mutex<Vec<(Tok, TokInfo)>>,
 }
 
 fn next_op(prog: &[Op], pc: usize, held: usize, cached: &[Option<TokInfo>; 2]) -> Option<Op> {
@@ -326,6 +354,10 @@ fn runner(t: usize, ctl: Arc<Ctl>, sh: Arc<Shared>, prog: Vec<Op>) {
     let upd = |ctl: &Ctl, f: &mut dyn FnMut(&mut ThRec)| {
         let mut g = ctl.m.lock().unwrap_or_else(|e| e.into_inner());
         f(&mut g.th[t]);
+    };
+    let updg = |ctl: &Ctl, f: &mut dyn FnMut(&mut RunState)| {
+        let mut g = ctl.m.lock().unwrap_or_else(|e| e.into_inner());
+        f(&mut g);
     };
     loop {
         let op = match next_op(&prog, pc, held.len(), &cached) { Some(o) => o, None => break };
@@ -389,15 +421,73 @@ fn runner(t: usize, ctl: Arc<Ctl>, sh: Arc<Shared>, prog: Vec<Op>) {
                     sh.tm.clear_thread_cache();
                     upd(&ctl, &mut |r| { r.slack = [0, 0]; });
                 }
-                Op::Retire => {
+                Op::WithR | Op::WithW => {
+                    let w = op == Op::WithW;
+                    let slot = w as usize;
+                    upd(&ctl, &mut |r| { r.slack = [0, 0]; r.slack[slot] = 1; r.freed_now.clear(); });
+                    let hits0 = cache_hits(&sh.tm);
+                    let mut ran = false;
+                    // what happens while the closure owns the token: it is held (a schedule point lets the other threads
+                    // run), then it is on its way into the thread cache, whose previous token is released by the caching
+                    let mut body = |inf: TokInfo| {
+                        ran = true;
+                        if cache_hits(&sh.tm) > hits0 { cached[slot] = None; }
+                        let mut hi: Vec<TokInfo> = held.iter().map(|x| x.1).collect();
+                        hi.push(inf);
+                        let c2 = cached;
+                        upd(&ctl, &mut |r| { r.held = hi.clone(); r.cached = c2; r.slack = [0, 0];
+                                             r.results.push(inf.version as i128); r.results.push(inf.minv as i128); });
+                        arrive(&ctl, t, Some(0));
+                        let old = cached[slot];
+                        cached[slot] = Some(inf);
+                        hi.pop();
+                        let c3 = cached;
+                        upd(&ctl, &mut |r| { r.held = hi.clone(); r.cached = c3; r.slack = [0, 0];
+                                             if let Some(o) = old { if o.kind < 2 { r.slack[o.kind as usize] = 1; } } });
+                    };
+                    if w {
+                        let _ = with_writer_token(&sh.tm, |tk| { body(TokInfo { kind: 1, version: tk.version(), minv: tk.min_version(), issuer: 0, handed_by: 0 }); Ok(()) });
+                    } else {
+                        let _ = with_reader_token(&sh.tm, |tk| { body(TokInfo { kind: if tk.is_readonly() { 2 } else { 0 }, version: tk.version(), minv: tk.min_version(), issuer: 0, handed_by: 0 }); Ok(()) });
+                    }
+                    if !ran { upd(&ctl, &mut |r| { r.results.push(-1); r.results.push(-1); }); }
+                    upd(&ctl, &mut |r| { r.slack = [0, 0]; });
+                }
+                Op::Give(i) => {
+                    if i < held.len() {
+                        let (tok, inf) = held.remove(i);
+                        sh.mail.lock().unwrap_or_else(|e| e.into_inner()).push((tok, inf));
+                        let hi: Vec<TokInfo> = held.iter().map(|x| x.1).collect();
+                        updg(&ctl, &mut |g| { g.th[t].held = hi.clone(); g.mail.push(inf); });
+                    }
+                    upd(&ctl, &mut |r| { r.slack = [0, 0]; r.freed_now.clear(); });
+                }
+                Op::Take => {
+                    let got = sh.mail.lock().unwrap_or_else(|e| e.into_inner()).pop();
+                    if let Some((tok, inf)) = got {
+                        held.push((tok, inf));
+                        let hi: Vec<TokInfo> = held.iter().map(|x| x.1).collect();
+                        updg(&ctl, &mut |g| { g.th[t].held = hi.clone(); g.mail.pop(); });
+                    }
+                    upd(&ctl, &mut |r| { r.slack = [0, 0]; r.freed_now.clear(); });
+                }
+                Op::ClearStats => {
+                    updg(&ctl, &mut |g| { g.stats_cleared = true; g.th[t].freed_now.clear(); });
+                    let _ = sh.tm.clear_all_stats();
+                }
+                Op::Retire | Op::RetireN => {
                     let age = vm.current_version();
-                    sh.lazy.lock().unwrap().push(LazyFreeItem::new(age, 0, 0));
+                    let mut l = sh.lazy.lock().unwrap_or_else(|e| e.into_inner());
+                    for _ in 0..(if op == Op::RetireN { 40 } else { 1 }) { l.push(LazyFreeItem::new(age, 0, 0)); }
                     upd(&ctl, &mut |r| { r.freed_now.clear(); });
                 }
-                Op::Reclaim => {
+                Op::Reclaim | Op::ReclaimBulk => {
                     let m = vm.min_version();
                     let mut freed: Vec<u64> = vec![];
-                    sh.lazy.lock().unwrap().process_safe_items(m, |it| freed.push(it.age));
+                    {
+                        let mut l = sh.lazy.lock().unwrap_or_else(|e| e.into_inner());
+                        if op == Op::Reclaim || l.should_bulk_process() { l.process_safe_items(m, |it| freed.push(it.age)); }
+                    }
                     upd(&ctl, &mut |r| {
                         r.results.push(1000 + freed.len() as i128);
                         for a in &freed { r.results.push(*a as i128); }
@@ -407,7 +497,8 @@ fn runner(t: usize, ctl: Arc<Ctl>, sh: Arc<Shared>, prog: Vec<Op>) {
             }
         });
         if let Err(p) = r {
-            upd(&ctl, &mut |r| { r.panic = Some(p.clone()); });
+            // (what the thread still holds is released below, outside the schedule)
+            upd(&ctl, &mut |r| { r.panic = Some(p.clone()); r.held.clear(); r.slack = [0, 0]; });
             break;
         }
         if pc < prog.len() { pc += 1; }
@@ -420,14 +511,17 @@ fn runner(t: usize, ctl: Arc<Ctl>, sh: Arc<Shared>, prog: Vec<Op>) {
 
 /// Runs `progs` on real threads against a fresh TokenManager of `level` under the chooser's schedule.
 /// Returns what the code showed and what the oracle says.
-fn run_conc(level: u8, progs: &[Vec<Op>], chooser: Chooser) -> RunOut {
+fn run_conc(level: u8, progs: &[Vec<Op>], chooser: Chooser, bulk: Option<u64>) -> RunOut {
     let n = progs.len();
-    let sh = Arc::new(Shared { tm: Arc::new(TokenManager::new(level_of(level))), lazy: Mutex::new(LazyFreeList::new()) });
+    // `bulk`: the bulk threshold of the shared LazyFreeList (None: `LazyFreeList::new()`, i.e. BULK_FREE_NUM)
+    let lazy = match bulk { None => LazyFreeList::new(), Some(b) => LazyFreeList::with_bulk_threshold(b.min(usize::MAX as u64) as usize) };
+    let sh = Arc::new(Shared { tm: Arc::new(TokenManager::new(level_of(level))), lazy: Mutex::new(lazy), mail: Mutex::new(vec![]) });
     let vm = sh.tm.version_manager().clone();
     let ctl = Arc::new(Ctl {
         m: Mutex::new(RunState {
             level, th: (0..n).map(|_| ThRec::default()).collect(), handles: vec![None; n], turn: None, started: 0, go: false,
             last: None, chooser, out: RunOut::default(), done: false, stuck: false, abort: false, progress: 0, vm: vm.clone(),
+            mail: vec![], stats_cleared: false,
         }),
         cv: Condvar::new(),
     });
@@ -490,12 +584,23 @@ fn run_conc(level: u8, progs: &[Vec<Op>], chooser: Chooser) -> RunOut {
         if out.failures.is_empty() { out.failures.push("threads did not start".into()); }
     } else {
         for h in handles { let _ = h.join(); }
+        // tokens nobody took out of the mailbox are released here (this thread is not scheduled: the hook ignores it)
+        let left: Vec<(Tok, TokInfo)> = std::mem::take(&mut *sh.mail.lock().unwrap_or_else(|e| e.into_inner()));
+        drop(left);
         let mut g = ctl.m.lock().unwrap_or_else(|e| e.into_inner());
         out = std::mem::take(&mut g.out);
         out.results = g.th.iter().map(|r| r.results.clone()).collect();
         let clean = g.th.iter().all(|r| r.panic.is_none());
         if clean && (vm.active_readers() != 0 || vm.active_writers() != 0) {
             out.failures.push(format!("(iii) at quiescence active_readers = {}, active_writers = {}", vm.active_readers(), vm.active_writers()));
+        }
+        // the same numbers as reported by the statistics (acquired - released), unless the run cleared them on the way
+        if clean && !g.stats_cleared {
+            if let Ok(st) = vm.stats() {
+                if st.active_readers() != 0 || st.active_writers() != 0 {
+                    out.failures.push(format!("(iii) at quiescence stats() reports {} active readers, {} active writers", st.active_readers(), st.active_writers()));
+                }
+            }
         }
     }
     if verif_sched::dangling_releases() != dangling0 {
@@ -510,12 +615,16 @@ fn run_conc(level: u8, progs: &[Vec<Op>], chooser: Chooser) -> RunOut {
 // ------------------------------------------------------------------------------------------------
 // cases
 // ------------------------------------------------------------------------------------------------
-fn conc_case_json(level: u8, progs: &[Vec<Op>], sched: &[usize]) -> Value {
+fn conc_is_ext(progs: &[Vec<Op>], bulk: Option<u64>) -> bool { bulk.is_some() || progs.iter().flatten().any(|o| o.is_ext()) }
+fn conc_case_json(level: u8, progs: &[Vec<Op>], sched: &[usize], bulk: Option<u64>) -> Value {
     let mut ops = vec![];
     for (t, p) in progs.iter().enumerate() {
         for o in p { ops.push(json!([t, o.name(), o.arg()])); }
     }
-    json!({"cell": format!("conc/L{}", level), "level": level, "threads": progs.len(), "ops": ops, "sched": sched})
+    let cell = format!("{}/L{}", if conc_is_ext(progs, bulk) { "concx" } else { "conc" }, level);
+    let mut c = json!({"cell": cell, "level": level, "threads": progs.len(), "ops": ops, "sched": sched});
+    if let Some(b) = bulk { c["bulk"] = json!(b); }
+    c
 }
 
 fn coq_conc(level: u8, progs: &[Vec<Op>], o: &RunOut) -> String {
@@ -536,11 +645,17 @@ struct Ctx {
 
 impl Ctx {
     /// One controlled run; bookkeeping, oracle verdict, optional emission to Coq.
-    fn conc(&mut self, level: u8, progs: &[Vec<Op>], chooser: Chooser, to_coq: bool) -> RunOut {
-        let o = run_conc(level, progs, chooser);
+    fn conc(&mut self, level: u8, progs: &[Vec<Op>], chooser: Chooser, to_coq: bool) -> RunOut { self.concx(level, progs, chooser, to_coq, None) }
+
+    /// `bulk`: threshold of the shared LazyFreeList.  Programs with operations the Coq model does not know (or a non-default
+    /// list) are judged by the oracle alone and counted in the cell `concx/L<level>`.
+    fn concx(&mut self, level: u8, progs: &[Vec<Op>], chooser: Chooser, to_coq: bool, bulk: Option<u64>) -> RunOut {
+        let o = run_conc(level, progs, chooser, bulk);
         self.runs += 1;
-        let cell = format!("conc/L{}", level);
-        let cj = conc_case_json(level, progs, &o.sched);
+        let ext = conc_is_ext(progs, bulk);
+        let to_coq = to_coq && !ext;
+        let cell = format!("{}/L{}", if ext { "concx" } else { "conc" }, level);
+        let cj = conc_case_json(level, progs, &o.sched, bulk);
         let switches = o.sched.windows(2).filter(|w| w[0] != w[1]).count();
         self.sum.eval(&cell, &cj.to_string(), switches >= 2 && level >= 1);
         self.sum.dist_max("max_steps_in_a_run", o.steps as u64);
@@ -551,7 +666,7 @@ impl Ctx {
         for f in &o.failures {
             self.sum.fail(&cell, None, cj.clone(), f);
         }
-        if (to_coq || !o.failures.is_empty()) && self.shards.len() < self.coq_budget && !o.failures.iter().any(|f| f.contains("deadlock") || f.contains("did not") || f.contains("panic")) {
+        if !ext && (to_coq || !o.failures.is_empty()) && self.shards.len() < self.coq_budget && !o.failures.iter().any(|f| f.contains("deadlock") || f.contains("did not") || f.contains("panic")) {
             let mut c = cj.clone();
             c["impl_trace"] = json!(o.trace.iter().map(|x| vec![x.0 as u64, x.1, x.2, x.3, x.4]).collect::<Vec<_>>());
             c["impl_results"] = json!(o.results.iter().map(|r| r.iter().map(|x| x.to_string()).collect::<Vec<_>>()).collect::<Vec<_>>());
@@ -561,13 +676,14 @@ impl Ctx {
     }
 
     /// All schedules of `progs` with at most `max_pre` pre-emptions (None = all), up to `budget` runs.
-    fn explore(&mut self, level: u8, progs: &[Vec<Op>], max_pre: Option<usize>, budget: usize, coq_every: usize) -> usize {
+    fn explore(&mut self, level: u8, progs: &[Vec<Op>], max_pre: Option<usize>, budget: usize, coq_every: usize) -> usize { self.explorex(level, progs, max_pre, budget, coq_every, None) }
+    fn explorex(&mut self, level: u8, progs: &[Vec<Op>], max_pre: Option<usize>, budget: usize, coq_every: usize, bulk: Option<u64>) -> usize {
         let mut stack: Vec<Vec<usize>> = vec![vec![]];
         let mut runs = 0usize;
         while let Some(prefix) = stack.pop() {
             if runs >= budget { self.sum.dist("explorations_cut_by_budget"); break; }
             let pl = prefix.len();
-            let o = self.conc(level, progs, Chooser::Prefix(prefix), coq_every > 0 && runs % coq_every == 0);
+            let o = self.concx(level, progs, Chooser::Prefix(prefix), coq_every > 0 && runs % coq_every == 0, bulk);
             runs += 1;
             // pre-emptions along the executed schedule
             let mut pre = vec![0usize; o.sched.len() + 1];
@@ -609,17 +725,40 @@ fn replay_conc(cx: &mut Ctx, c: &Value) {
     let progs = parse_ops(c, threads);
     let sched: Vec<usize> = c["sched"].as_array().map(|a| a.iter().map(|x| x.as_u64().unwrap_or(0) as usize).collect()).unwrap_or_default();
     // follow the recorded schedule where it is still executable (a shrunk case may skip entries)
-    cx.conc(level, &progs, Chooser::Replay(sched, 0), true);
+    cx.concx(level, &progs, Chooser::Replay(sched, 0), true, c["bulk"].as_u64());
 }
 
 // ------------------------------------------------------------------------------------------------
 // sequential histories over several managers
 // ------------------------------------------------------------------------------------------------
 #[derive(Clone, Copy, PartialEq, Debug)]
-enum SOp { NewTm(u8), NewVm(u8), AcqR(usize), AcqW(usize), TmAcqR(usize), TmAcqW(usize), Ret(usize, usize), Drop(usize), Clear, DropMgr(usize) }
+enum SOp { NewTm(u8), NewVm(u8), AcqR(usize), AcqW(usize), TmAcqR(usize), TmAcqW(usize), Ret(usize, usize), Drop(usize), Clear, DropMgr(usize),
+    // ---- oracle breadth: entry points the Coq model does not know (a history containing one of them is judged by the oracle only)
+    /// `TokenManager::with_version_manager(the VersionManager of manager m)`: a second door to the same counters
+    NewTmShared(usize),
+    /// `with_reader_token` (kind 0) / `with_writer_token` (kind 1) on manager m; variant 0: the closure succeeds, 1: it returns an error,
+    /// 2: it asks the same manager for a writer token while it runs, 3: it panics, 4: through `TokenAccess::{read,write}_with_manager`,
+    /// 5: it runs a nested `with_reader_token`
+    With(usize, u8, u8),
+    /// `TokenManager::clear_all_stats` / `VersionManager::clear_stats` (housekeeping; must not touch the live state)
+    ClearStats(usize),
+    /// the held token i is lent to `CompressedSparseTrie::{insert,contains,lookup}_with_token`
+    Use(usize),
+    /// a `TokenCache` owned by the history (not the thread-local one): `cache_*_token(held i)`, `get_*_token()`, `get_*_token_for(manager)`, `clear`
+    OcPut(usize), OcGet(u8), OcGetFor(u8, usize), OcClear,
+    /// the held token i is moved to another thread, which drops it (mode 0) or returns it to ITS thread cache and exits (mode 1)
+    Send(usize, u8),
+}
 impl SOp {
+    fn is_ext(&self) -> bool {
+        matches!(self, SOp::NewTmShared(_) | SOp::With(..) | SOp::ClearStats(_) | SOp::Use(_) | SOp::OcPut(_) | SOp::OcGet(_) | SOp::OcGetFor(..) | SOp::OcClear | SOp::Send(..))
+    }
     fn json(&self) -> Value {
         match *self {
+            SOp::NewTmShared(m) => json!(["NewTmShared", m, 0]), SOp::With(m, k, v) => json!(["With", m, k * 10 + v]),
+            SOp::ClearStats(m) => json!(["ClearStats", m, 0]), SOp::Use(i) => json!(["Use", i, 0]),
+            SOp::OcPut(i) => json!(["OcPut", i, 0]), SOp::OcGet(k) => json!(["OcGet", k, 0]), SOp::OcGetFor(k, m) => json!(["OcGetFor", k, m]),
+            SOp::OcClear => json!(["OcClear", 0, 0]), SOp::Send(i, md) => json!(["Send", i, md]),
             SOp::NewTm(l) => json!(["NewTm", l, 0]), SOp::NewVm(l) => json!(["NewVm", l, 0]),
             SOp::AcqR(m) => json!(["AcqR", m, 0]), SOp::AcqW(m) => json!(["AcqW", m, 0]),
             SOp::TmAcqR(m) => json!(["TmAcqR", m, 0]), SOp::TmAcqW(m) => json!(["TmAcqW", m, 0]),
@@ -634,6 +773,9 @@ impl SOp {
             "NewTm" => SOp::NewTm(a as u8), "NewVm" => SOp::NewVm(a as u8),
             "AcqR" => SOp::AcqR(a), "AcqW" => SOp::AcqW(a), "TmAcqR" => SOp::TmAcqR(a), "TmAcqW" => SOp::TmAcqW(a),
             "Ret" => SOp::Ret(a, b), "Drop" => SOp::Drop(a), "Clear" => SOp::Clear, "DropMgr" => SOp::DropMgr(a),
+            "NewTmShared" => SOp::NewTmShared(a), "With" => SOp::With(a, ((b / 10) % 2) as u8, (b % 10) as u8), "ClearStats" => SOp::ClearStats(a),
+            "Use" => SOp::Use(a), "OcPut" => SOp::OcPut(a), "OcGet" => SOp::OcGet((a % 2) as u8), "OcGetFor" => SOp::OcGetFor((a % 2) as u8, b),
+            "OcClear" => SOp::OcClear, "Send" => SOp::Send(a, (b % 2) as u8),
             _ => return None,
         })
     }
@@ -644,16 +786,52 @@ impl SOp {
             SOp::TmAcqR(m) => format!("SAcq true KR {}%nat", m), SOp::TmAcqW(m) => format!("SAcq true KW {}%nat", m),
             SOp::Ret(i, _) => format!("SRet {}%nat", i), SOp::Drop(i) => format!("SDrop {}%nat", i),
             SOp::Clear => "SClear".into(), SOp::DropMgr(m) => format!("SDropMgr {}%nat", m),
+            _ => "SClear".into(), // never emitted: histories with oracle-only operations are not sent to the model
         }
     }
 }
 
-enum Mgr { Tm(TokenManager), Vm(Box<VersionManager>) }
+enum Mgr { Tm(TokenManager), Vm(Arc<VersionManager>) }
 impl Mgr {
     fn vm(&self) -> &VersionManager { match self { Mgr::Tm(t) => t.version_manager(), Mgr::Vm(v) => v } }
+    fn arc(&self) -> Arc<VersionManager> { match self { Mgr::Tm(t) => t.version_manager().clone(), Mgr::Vm(v) => v.clone() } }
 }
 
 struct SeqOut { failures: Vec<(Option<&'static str>, String)>, obs: Vec<Vec<i128>>, dangling_shadow: bool, cross_shadow: bool }
+
+/// A token seen from inside a `with_*_token` closure / a `TokenAccess` implementation.
+enum TokRef<'a> { R(&'a ReaderToken), W(&'a WriterToken) }
+/// What the real objects show while such a token is lent to the closure.
+#[derive(Clone, Copy, Debug)]
+struct Inside { kind: u8, version: u64, minv: u64, hit: bool, vm_min: u64, ar: u64, aw: u64, issued: bool, valid: bool, level: ConcurrencyLevel, tok_valid: bool, acw: bool }
+fn observe(tk: &TokRef, vm: &VersionManager, hit: bool) -> Inside {
+    let (kind, version, minv, issued, level, tok_valid, acw) = match tk {
+        TokRef::R(t) => (if t.is_readonly() { 2 } else { 0 }, t.version(), t.min_version(), t.issued_by(vm), t.concurrency_level(), t.is_valid(), false),
+        TokRef::W(t) => (1u8, t.version(), t.min_version(), t.issued_by(vm), t.concurrency_level(), t.is_valid(), t.allows_concurrent_writers()),
+    };
+    Inside { kind, version, minv, hit, vm_min: vm.min_version(), ar: vm.active_readers(), aw: vm.active_writers(), issued,
+             valid: vm.validate_token_version(version), level, tok_valid, acw }
+}
+fn cache_hits(tm: &TokenManager) -> u64 { let st = tm.thread_cache_stats(); st.reader_cache_hits + st.writer_cache_hits }
+
+/// `TokenAccess` (blanket impl over `ReaderTokenAccess + WriterTokenAccess`): the object only records what it is shown.
+struct Probe<'a> { vm: &'a VersionManager, helper: &'a TokenManager, hits0: u64, seen: Cell<Option<Inside>> }
+impl ReaderTokenAccess for Probe<'_> {
+    type ReadResult = u64;
+    fn read_with_token(&self, t: &ReaderToken) -> zipora::error::Result<u64> {
+        self.seen.set(Some(observe(&TokRef::R(t), self.vm, cache_hits(self.helper) > self.hits0)));
+        Ok(t.version())
+    }
+}
+impl WriterTokenAccess for Probe<'_> {
+    type WriteResult = u64;
+    fn write_with_token(&mut self, t: &WriterToken) -> zipora::error::Result<u64> {
+        self.seen.set(Some(observe(&TokRef::W(t), self.vm, cache_hits(self.helper) > self.hits0)));
+        Ok(t.version())
+    }
+}
+
+const CLOSURE_PANIC: &str = "closure panics while it holds the token";
 
 /// Runs a sequential history on a fresh thread (fresh thread-local cache).
 fn run_seq(ops: &[SOp], leave: bool) -> SeqOut {
@@ -661,13 +839,20 @@ fn run_seq(ops: &[SOp], leave: bool) -> SeqOut {
     let d_before = verif_sched::dangling_releases();
     let h = std::thread::spawn(move || {
         let mut out = SeqOut { failures: vec![], obs: vec![], dangling_shadow: false, cross_shadow: false };
+        // the history's own TokenCache is declared first, so that with `leave` it is dropped after every manager
+        let mut oc: TokenCache = TokenCache::default();
+        let mut oc_cached: [Option<TokInfo>; 2] = [None, None];
         let mut mgrs: Vec<Option<Mgr>> = vec![];
         let mut levels: Vec<u8> = vec![];
+        // managers built over one VersionManager (`with_version_manager`) share its counters: vmid = first manager of that state
+        let mut vmid: Vec<usize> = vec![];
+        let mut stats_dirty: Vec<bool> = vec![];
         let mut held: Vec<(Tok, TokInfo)> = vec![];
         let mut cached: [Option<TokInfo>; 2] = [None, None];
+        let mut trie: Option<CompressedSparseTrie> = None;
         let d0 = verif_sched::dangling_releases();
         let mut seen_dangling = 0u64;
-        let helper = TokenManager::new(ConcurrencyLevel::SingleThreadStrict);
+        let helper = TokenManager::new(ConcurrencyLevel::default());
         let nops = ops.len();
         // epilogue: release what is still owned, then the managers
         let mut all: Vec<Option<SOp>> = ops.iter().cloned().map(Some).collect();
@@ -680,9 +865,24 @@ fn run_seq(ops: &[SOp], leave: bool) -> SeqOut {
                     let m = m % mgrs.len();
                     if mgrs[m].is_some() { Some(m) } else { None }
                 };
+                // every door to the state of the issuing manager is gone
+                let gone = |issuer: usize, mgrs: &Vec<Option<Mgr>>, vmid: &Vec<usize>| -> bool {
+                    !mgrs.iter().enumerate().any(|(j, x)| x.is_some() && vmid[j] == vmid[issuer])
+                };
                 match op {
-                    Some(SOp::NewTm(l)) => { mgrs.push(Some(Mgr::Tm(TokenManager::new(level_of(l))))); levels.push(l.min(4)); }
-                    Some(SOp::NewVm(l)) => { mgrs.push(Some(Mgr::Vm(Box::new(VersionManager::new(level_of(l)))))); levels.push(l.min(4)); }
+                    Some(SOp::NewTm(l)) => {
+                        mgrs.push(Some(Mgr::Tm(TokenManager::new(level_of(l))))); levels.push(l.min(4)); vmid.push(mgrs.len() - 1); stats_dirty.push(false);
+                    }
+                    Some(SOp::NewVm(l)) => {
+                        mgrs.push(Some(Mgr::Vm(Arc::new(VersionManager::new(level_of(l)))))); levels.push(l.min(4)); vmid.push(mgrs.len() - 1); stats_dirty.push(false);
+                    }
+                    Some(SOp::NewTmShared(src)) => {
+                        if let Some(src) = alive(src, &mgrs) {
+                            let arc = mgrs[src].as_ref().unwrap().arc();
+                            mgrs.push(Some(Mgr::Tm(TokenManager::with_version_manager(arc))));
+                            levels.push(levels[src]); vmid.push(vmid[src]); stats_dirty.push(false);
+                        }
+                    }
                     Some(SOp::AcqR(m)) | Some(SOp::AcqW(m)) | Some(SOp::TmAcqR(m)) | Some(SOp::TmAcqW(m)) => {
                         if let Some(m) = alive(m, &mgrs) {
                             let w = matches!(op, Some(SOp::AcqW(_)) | Some(SOp::TmAcqW(_)));
@@ -690,14 +890,14 @@ fn run_seq(ops: &[SOp], leave: bool) -> SeqOut {
                             let mg = mgrs[m].as_ref().unwrap();
                             if let Mgr::Vm(_) = mg { via = false; }
                             let slot = w as usize;
-                            let hits0 = { let st = helper.thread_cache_stats(); st.reader_cache_hits + st.writer_cache_hits };
+                            let hits0 = cache_hits(&helper);
                             let got: Option<Tok> = match (mg, via, w) {
                                 (Mgr::Tm(t), true, false) => t.acquire_reader_token().ok().map(Tok::R),
                                 (Mgr::Tm(t), true, true) => t.acquire_writer_token().ok().map(Tok::W),
                                 (_, _, false) => mg.vm().acquire_reader_token().ok().map(Tok::R),
                                 (_, _, true) => mg.vm().acquire_writer_token().ok().map(Tok::W),
                             };
-                            let hits1 = { let st = helper.thread_cache_stats(); st.reader_cache_hits + st.writer_cache_hits };
+                            let hits1 = cache_hits(&helper);
                             // a cache hit hands out the cached token (whoever issued it)
                             let from_cache: Option<TokInfo> = if hits1 > hits0 { cached[slot].take() } else { None };
                             match got {
@@ -705,7 +905,7 @@ fn run_seq(ops: &[SOp], leave: bool) -> SeqOut {
                                     let mut inf = tok.info(m);
                                     if let Some(c) = from_cache {
                                         inf.issuer = c.issuer;
-                                        if c.issuer != m { out.cross_shadow = true; }
+                                        if vmid[c.issuer] != vmid[m] { out.cross_shadow = true; }
                                     }
                                     inf.handed_by = m;
                                     // a manager that synchronises (any level but NoWriteReadOnly) counts every token it hands out and
@@ -714,6 +914,12 @@ fn run_seq(ops: &[SOp], leave: bool) -> SeqOut {
                                     if inf.kind == 2 && levels[m] != 0 {
                                         out.failures.push((None, format!("(ii)/(iii) step {}: manager {} (level {}) handed out a read-only token of version {} that it neither counts nor protects (min_version {})", step, m, levels[m], inf.version, mg.vm().min_version())));
                                     }
+                                    // what the token says about itself: it is usable, and it is a token of this manager's level
+                                    let (tv, tl, acw) = match &tok { Tok::R(t) => (t.is_valid(), t.concurrency_level(), false), Tok::W(t) => (t.is_valid(), t.concurrency_level(), t.allows_concurrent_writers()) };
+                                    if !tv { out.failures.push((None, format!("step {}: manager {} handed out a token with is_valid() = false", step, m))); }
+                                    if inf.kind < 2 && (tl != level_of(levels[m]) || acw != (levels[m] == 4 && w)) {
+                                        out.failures.push((None, format!("(i) step {}: manager {} of level {} handed out a token that says level {} / allows_concurrent_writers = {}", step, m, levels[m], tl, acw)));
+                                    }
                                     o.push(inf.version as i128);
                                     held.push((tok, inf));
                                 }
@@ -721,12 +927,207 @@ fn run_seq(ops: &[SOp], leave: bool) -> SeqOut {
                             }
                         }
                     }
+                    Some(SOp::With(m, kind, var)) => {
+                        if let Some(m) = alive(m, &mgrs) {
+                            let w = kind == 1;
+                            let slot = w as usize;
+                            let lv = levels[m];
+                            let arc = mgrs[m].as_ref().unwrap().arc();
+                            // a bare VersionManager gets a TokenManager made for the occasion
+                            let tmp: TokenManager;
+                            let tm: &TokenManager = match mgrs[m].as_ref().unwrap() { Mgr::Tm(t) => t, Mgr::Vm(v) => { tmp = TokenManager::with_version_manager(v.clone()); &tmp } };
+                            let handed_now = |k: u8, held: &Vec<(Tok, TokInfo)>| held.iter().filter(|(_, h)| h.kind == k && vmid[h.handed_by] == vmid[m]).count() as u64;
+                            let hw = handed_now(1, &held);
+                            let hk = handed_now(kind, &held);
+                            let hits0 = cache_hits(&helper);
+                            let mut seen: Option<Inside> = None;
+                            let mut nested: Option<Inside> = None;
+                            let r = guarded(|| -> zipora::error::Result<u64> {
+                                if var == 4 {
+                                    let mut p = Probe { vm: &arc, helper: &helper, hits0, seen: Cell::new(None) };
+                                    let r = if w { p.write_with_manager(tm, |v| Ok(*v)) } else { p.read_with_manager(tm, |v| Ok(*v)) };
+                                    seen = p.seen.take();
+                                    return r;
+                                }
+                                let mut body = |tk: TokRef| -> zipora::error::Result<u64> {
+                                    seen = Some(observe(&tk, &arc, cache_hits(&helper) > hits0));
+                                    match var {
+                                        1 => return Err(ZiporaError::invalid_operation("the closure reports an error")),
+                                        3 => panic!("{}", CLOSURE_PANIC),
+                                        2 => {
+                                            let h1 = cache_hits(&helper);
+                                            if let Ok(t2) = tm.acquire_writer_token() {
+                                                nested = Some(observe(&TokRef::W(&t2), &arc, cache_hits(&helper) > h1));
+                                                drop(t2);
+                                            }
+                                        }
+                                        5 => {
+                                            let h1 = cache_hits(&helper);
+                                            let _ = with_reader_token(tm, |t2| { nested = Some(observe(&TokRef::R(t2), &arc, cache_hits(&helper) > h1)); Ok(()) });
+                                        }
+                                        _ => {}
+                                    }
+                                    Ok(match tk { TokRef::R(t) => t.version(), TokRef::W(t) => t.version() })
+                                };
+                                if w { with_writer_token(tm, |t| body(TokRef::W(t))) } else { with_reader_token(tm, |t| body(TokRef::R(t))) }
+                            });
+                            match (&r, var) {
+                                (Err(p), 3) if p.as_str() == CLOSURE_PANIC => {}
+                                (Err(p), _) => out.failures.push((None, format!("step {}: with_{}_token panicked: {}", step, if w { "writer" } else { "reader" }, p))),
+                                _ => {}
+                            }
+                            let returned = matches!(r, Ok(Ok(_)));
+                            match seen {
+                                None => o.push(-1),
+                                Some(s) => {
+                                    let from_cache: Option<TokInfo> = if s.hit { cached[slot].take() } else { None };
+                                    let mut inf = TokInfo { kind: s.kind, version: s.version, minv: s.minv, issuer: m, handed_by: m };
+                                    if let Some(c) = from_cache { inf.issuer = c.issuer; if vmid[c.issuer] != vmid[m] { out.cross_shadow = true; } }
+                                    let which = if w { "with_writer_token" } else { "with_reader_token" };
+                                    if s.kind == 2 && lv != 0 {
+                                        out.failures.push((None, format!("(ii)/(iii) step {}: {} on manager {} (level {}) lent a read-only token that the manager neither counts nor protects", step, which, m, lv)));
+                                    }
+                                    if !s.issued {
+                                        out.failures.push((None, format!("(iii) step {}: {} on manager {} ran the closure with a token (version {}) that this manager did not issue", step, which, m, s.version)));
+                                    }
+                                    if !s.tok_valid { out.failures.push((None, format!("step {}: {} lent a token with is_valid() = false", step, which))); }
+                                    if s.kind < 2 {
+                                        if s.vm_min > s.version || !s.valid {
+                                            out.failures.push((None, format!("(ii) step {}: inside {} the token has version {} but min_version() = {} (validate_token_version = {})", step, which, s.version, s.vm_min, s.valid)));
+                                        }
+                                        let c = if w { s.aw } else { s.ar };
+                                        if c < hk + 1 {
+                                            out.failures.push((None, format!("(iii) step {}: inside {} manager {} reports {} active {} while {} of its tokens are held and one is lent to the closure", step, which, m, c, if w { "writers" } else { "readers" }, hk)));
+                                        }
+                                        if s.level != level_of(lv) || s.acw != (lv == 4 && w) {
+                                            out.failures.push((None, format!("(i) step {}: {} on manager {} of level {} lent a token that says level {} / allows_concurrent_writers = {}", step, which, m, lv, s.level, s.acw)));
+                                        }
+                                        if lv == 3 && w && hw >= 1 {
+                                            out.failures.push((None, format!("(i) step {}: with_writer_token ran on OneWriteMultiRead manager {} while {} writer tokens of it are held", step, m, hw)));
+                                        }
+                                    }
+                                    if let Some(n) = nested {
+                                        if var == 2 {
+                                            if n.hit { cached[1] = None; }
+                                            if lv == 3 && (hw + w as u64) >= 1 {
+                                                out.failures.push((None, format!("(i) step {}: inside {} OneWriteMultiRead manager {} granted a writer token (version {}) while {} writer tokens of it are live", step, which, m, n.version, hw + w as u64)));
+                                            }
+                                            if !n.issued { out.failures.push((None, format!("(iii) step {}: inside {} manager {} handed out a writer token it did not issue", step, which, m))); }
+                                            if n.aw < hw + w as u64 + 1 {
+                                                out.failures.push((None, format!("(iii) step {}: inside {} manager {} reports {} active writers with {} live writer tokens", step, which, m, n.aw, hw + w as u64 + 1)));
+                                            }
+                                            if n.vm_min > n.version || (s.kind < 2 && n.vm_min > s.version) {
+                                                out.failures.push((None, format!("(ii) step {}: inside {} min_version() = {} with live tokens of versions {} and {}", step, which, n.vm_min, s.version, n.version)));
+                                            }
+                                        } else {
+                                            // nested with_reader_token: its token went (back) into the reader slot
+                                            if n.hit { cached[0] = None; }
+                                            if !n.issued { out.failures.push((None, format!("(iii) step {}: nested with_reader_token on manager {} lent a token it did not issue", step, m))); }
+                                            if n.kind < 2 && n.ar < handed_now(0, &held) + (!w) as u64 + 1 {
+                                                out.failures.push((None, format!("(iii) step {}: nested with_reader_token: manager {} reports {} active readers", step, m, n.ar)));
+                                            }
+                                            let issuer = if n.hit { inf.issuer } else { m };
+                                            cached[0] = Some(TokInfo { kind: n.kind, version: n.version, minv: n.minv, issuer, handed_by: m });
+                                        }
+                                    }
+                                    // after a failed closure the token is released - or, for all the property cares, still cached:
+                                    // then it counts as "maybe live" like every cached token
+                                    if returned || cached[slot].is_none() { cached[slot] = Some(inf); }
+                                    o.push(inf.version as i128);
+                                }
+                            }
+                        }
+                    }
+                    Some(SOp::ClearStats(m)) => {
+                        if let Some(m) = alive(m, &mgrs) {
+                            let ok = match mgrs[m].as_ref().unwrap() { Mgr::Tm(t) => t.clear_all_stats().is_ok(), Mgr::Vm(v) => v.clear_stats().is_ok() };
+                            if !ok { out.failures.push((None, format!("step {}: clearing the statistics of manager {} reports an error", step, m))); }
+                            stats_dirty[vmid[m]] = true;
+                        }
+                    }
+                    Some(SOp::Use(i)) => {
+                        if i < held.len() {
+                            if trie.is_none() { trie = CompressedSparseTrie::new(ConcurrencyLevel::OneWriteMultiRead).ok(); }
+                            if let Some(tr) = trie.as_mut() {
+                                let key = format!("v{}", held[i].1.version).into_bytes();
+                                match &held[i].0 {
+                                    Tok::W(t) => { let _ = tr.insert_with_token(&key, t); }
+                                    Tok::R(t) => { let _ = tr.contains_with_token(&key, t); let _ = tr.lookup_with_token(b"v2", t); }
+                                }
+                            }
+                        }
+                    }
+                    Some(SOp::OcPut(i)) => {
+                        if i < held.len() {
+                            let (tok, inf) = held.remove(i);
+                            let slot = if inf.kind == 1 { 1 } else { 0 };
+                            if let Some(old) = oc_cached[slot] { if old.kind < 2 && gone(old.issuer, &mgrs, &vmid) { out.dangling_shadow = true; } }
+                            oc_cached[slot] = Some(inf);
+                            match tok { Tok::R(x) => oc.cache_reader_token(x), Tok::W(x) => oc.cache_writer_token(x) }
+                        }
+                    }
+                    Some(SOp::OcGet(k)) | Some(SOp::OcGetFor(k, _)) => {
+                        let slot = (k % 2) as usize;
+                        let target: Option<usize> = match op { Some(SOp::OcGetFor(_, m)) => alive(m, &mgrs), _ => None };
+                        if target.is_some() || matches!(op, Some(SOp::OcGet(_))) {
+                            let got: Option<Tok> = match (slot, target) {
+                                (0, None) => oc.get_reader_token().map(Tok::R),
+                                (_, None) => oc.get_writer_token().map(Tok::W),
+                                (0, Some(m)) => oc.get_reader_token_for(mgrs[m].as_ref().unwrap().vm()).map(Tok::R),
+                                (_, Some(m)) => oc.get_writer_token_for(mgrs[m].as_ref().unwrap().vm()).map(Tok::W),
+                            };
+                            match got {
+                                Some(tok) => match oc_cached[slot].take() {
+                                    Some(c) if c.version == tok.info(0).version => {
+                                        let mut inf = c;
+                                        if let Some(m) = target {
+                                            // the filtered door: only a token of that manager (a read-only one: of any read-only manager)
+                                            let own = if c.kind == 2 { levels[m] == 0 } else { vmid[c.issuer] == vmid[m] };
+                                            if !own {
+                                                out.failures.push((None, format!("(iii) step {}: TokenCache::get_{}_token_for(manager {}) handed out the token of version {} issued by manager {}", step, if slot == 1 { "writer" } else { "reader" }, m, c.version, c.issuer)));
+                                            }
+                                            inf.handed_by = m;
+                                        } else {
+                                            inf.handed_by = c.issuer;
+                                        }
+                                        o.push(inf.version as i128);
+                                        held.push((tok, inf));
+                                    }
+                                    other => {
+                                        out.failures.push((None, format!("(iii) step {}: the TokenCache handed out a token of version {} but the token cached in that slot was {:?}", step, tok.info(0).version, other)));
+                                        held.push((tok, TokInfo { kind: 2, version: 0, minv: 0, issuer: 0, handed_by: 0 }));
+                                    }
+                                },
+                                None => o.push(-1),
+                            }
+                        }
+                    }
+                    Some(SOp::OcClear) => {
+                        for c in oc_cached.iter().flatten() { if c.kind < 2 && gone(c.issuer, &mgrs, &vmid) { out.dangling_shadow = true; } }
+                        oc_cached = [None, None];
+                        oc.clear();
+                        oc.clear_stats();
+                    }
+                    Some(SOp::Send(i, mode)) => {
+                        if i < held.len() {
+                            let (tok, inf) = held.remove(i);
+                            if inf.kind < 2 && gone(inf.issuer, &mgrs, &vmid) { out.dangling_shadow = true; }
+                            let jh = std::thread::spawn(move || {
+                                if mode == 0 { drop(tok); } else {
+                                    // cached on the other thread, released by the destructor of its thread-local cache
+                                    let tm = TokenManager::new(ConcurrencyLevel::MultiWriteMultiRead);
+                                    match tok { Tok::R(x) => tm.return_reader_token(x), Tok::W(x) => tm.return_writer_token(x) }
+                                }
+                            });
+                            if jh.join().is_err() { out.failures.push((None, format!("(iv) step {}: releasing a token on another thread panicked", step))); }
+                        }
+                    }
                     Some(SOp::Ret(i, m)) => {
                         if i < held.len() {
                             let tm: &TokenManager = match alive(m, &mgrs).and_then(|m| mgrs[m].as_ref()) { Some(Mgr::Tm(t)) => t, _ => &helper };
                             let (tok, inf) = held.remove(i);
                             let slot = if inf.kind == 1 { 1 } else { 0 };
-                            if let Some(old) = cached[slot] { if old.kind < 2 && mgrs[old.issuer].is_none() { out.dangling_shadow = true; } }
+                            if let Some(old) = cached[slot] { if old.kind < 2 && gone(old.issuer, &mgrs, &vmid) { out.dangling_shadow = true; } }
                             cached[slot] = Some(inf);
                             match tok { Tok::R(x) => tm.return_reader_token(x), Tok::W(x) => tm.return_writer_token(x) }
                         }
@@ -734,12 +1135,12 @@ fn run_seq(ops: &[SOp], leave: bool) -> SeqOut {
                     Some(SOp::Drop(i)) => {
                         if i < held.len() {
                             let (tok, inf) = held.remove(i);
-                            if inf.kind < 2 && mgrs[inf.issuer].is_none() { out.dangling_shadow = true; }
+                            if inf.kind < 2 && gone(inf.issuer, &mgrs, &vmid) { out.dangling_shadow = true; }
                             drop(tok);
                         }
                     }
                     Some(SOp::Clear) => {
-                        for c in cached.iter().flatten() { if c.kind < 2 && mgrs[c.issuer].is_none() { out.dangling_shadow = true; } }
+                        for c in cached.iter().flatten() { if c.kind < 2 && gone(c.issuer, &mgrs, &vmid) { out.dangling_shadow = true; } }
                         cached = [None, None];
                         helper.clear_thread_cache();
                     }
@@ -747,12 +1148,14 @@ fn run_seq(ops: &[SOp], leave: bool) -> SeqOut {
                         if let Some(m) = alive(m, &mgrs) { mgrs[m] = None; }
                     }
                     None => {
-                        for (_, inf) in held.iter() { if inf.kind < 2 && mgrs[inf.issuer].is_none() { out.dangling_shadow = true; } }
-                        for c in cached.iter().flatten() { if c.kind < 2 && mgrs[c.issuer].is_none() { out.dangling_shadow = true; } }
+                        for (_, inf) in held.iter() { if inf.kind < 2 && gone(inf.issuer, &mgrs, &vmid) { out.dangling_shadow = true; } }
+                        for c in cached.iter().chain(oc_cached.iter()).flatten() { if c.kind < 2 && gone(c.issuer, &mgrs, &vmid) { out.dangling_shadow = true; } }
                         held.clear();
                         if !leave {
                             cached = [None, None];
                             helper.clear_thread_cache();
+                            oc_cached = [None, None];
+                            oc.clear();
                         }
                     }
                 }
@@ -772,24 +1175,49 @@ fn run_seq(ops: &[SOp], leave: bool) -> SeqOut {
                 o.extend_from_slice(&[cur as i128, min as i128, ar as i128, aw as i128]);
                 let mut handed = [0u64; 2];
                 let mut maybe = [0u64; 2];
-                for (_, h) in held.iter() {
-                    if h.handed_by == m && h.kind < 2 {
+                let mut foreign = [0u64; 2];   // issued by this state, handed out by another manager
+                for (tok, h) in held.iter() {
+                    let mine = vmid[h.issuer] == vmid[m];
+                    if vmid[h.handed_by] == vmid[m] && h.kind < 2 {
                         handed[h.kind as usize] += 1;
-                        if h.issuer == m && min > h.version {
+                        if mine && min > h.version {
                             out.failures.push((None, format!("(ii) step {}: manager {} min_version {} exceeds held version {}", step, m, min, h.version)));
                         }
+                    } else if mine && h.kind < 2 {
+                        foreign[h.kind as usize] += 1;
+                    }
+                    // what the token and the manager say about each other
+                    let says = match tok { Tok::R(t) => t.issued_by(vm), Tok::W(t) => t.issued_by(vm) };
+                    let expect = if h.kind == 2 { levels[m] == 0 } else { mine };
+                    if says != expect {
+                        out.failures.push((None, format!("(iii) step {}: the held token of version {} issued by manager {} answers issued_by(manager {}) = {}", step, h.version, h.issuer, m, says)));
+                    }
+                    if mine && h.kind < 2 && !vm.validate_token_version(h.version) {
+                        out.failures.push((None, format!("(ii) step {}: manager {} does not validate version {} of a live token it issued (min_version {}, current_version {})", step, m, h.version, min, cur)));
                     }
                 }
-                for c in cached.iter().flatten() { if c.kind < 2 { maybe[c.kind as usize] += 1; } }
-                let cross = held.iter().any(|(_, h)| h.handed_by == m && h.issuer != m);
+                for c in cached.iter().chain(oc_cached.iter()).flatten() { if c.kind < 2 { maybe[c.kind as usize] += 1; } }
                 let cls: Option<&'static str> = None;
-                let _ = cross;
                 if levels[m] == 3 && handed[1] > 1 {
                     out.failures.push((cls, format!("(i) step {}: manager {} (OneWriteMultiRead) has handed out {} writer tokens that are all still held", step, m, handed[1])));
                 }
                 for (k, name, c) in [(0usize, "active_readers", ar), (1usize, "active_writers", aw)] {
-                    if c < handed[k] || c > handed[k] + maybe[k] + held.iter().filter(|(_, h)| h.issuer == m && h.handed_by != m && h.kind as usize == k).count() as u64 {
+                    if c < handed[k] || c > handed[k] + maybe[k] + foreign[k] {
                         out.failures.push((cls, format!("(iii) step {}: manager {} reports {} = {} but {} tokens handed out by it are held (at most {} more cached)", step, m, name, c, handed[k], maybe[k])));
+                    }
+                }
+                // the second report of the same numbers: VersionManagerStats::active_readers / active_writers (acquired - released)
+                if !stats_dirty[vmid[m]] {
+                    match vm.stats() {
+                        Ok(s) => if s.active_readers() != ar as i64 || s.active_writers() != aw as i64 {
+                            out.failures.push((None, format!("(iii) step {}: manager {}: stats() reports {} active readers / {} active writers, the manager {} / {}", step, m, s.active_readers(), s.active_writers(), ar, aw)));
+                        },
+                        Err(_) => out.failures.push((None, format!("step {}: manager {}: stats() reports an error", step, m))),
+                    }
+                }
+                if let Mgr::Tm(t) = mg {
+                    if t.concurrency_level() != level_of(levels[m]) || vm.concurrency_level() != level_of(levels[m]) {
+                        out.failures.push((None, format!("step {}: manager {} was made with level {} and says {}", step, m, levels[m], t.concurrency_level())));
                     }
                 }
                 if step == nops && !leave && (ar != 0 || aw != 0) {
@@ -800,10 +1228,15 @@ fn run_seq(ops: &[SOp], leave: bool) -> SeqOut {
             if out.failures.len() > 6 { break; }
         }
         drop(held);
-        if !leave { helper.clear_thread_cache(); }
+        if !leave { helper.clear_thread_cache(); oc.clear(); }
+        drop(trie);
         drop(mgrs);
         // with `leave`, tokens still in the thread-local cache are released by its destructor at thread
-        // exit, after every manager of the history is gone
+        // exit, after every manager of the history is gone; the history's own cache goes just before
+        drop(oc);
+        if verif_sched::dangling_releases() - d0 > seen_dangling {
+            out.failures.push((None, "(iv) a token still cached (TokenCache of the history) or held at the end was released after the manager that issued it had been destroyed".into()));
+        }
         (out, verif_sched::dangling_releases())
     });
     match h.join() {
@@ -819,22 +1252,28 @@ fn run_seq(ops: &[SOp], leave: bool) -> SeqOut {
 }
 
 fn seq_case_json(ops: &[SOp], leave: bool) -> Value {
-    json!({"cell": "seq", "leave": leave, "ops": ops.iter().map(|o| o.json()).collect::<Vec<_>>()})
+    let cell = if ops.iter().any(|o| o.is_ext()) { "seqx" } else { "seq" };
+    json!({"cell": cell, "leave": leave, "ops": ops.iter().map(|o| o.json()).collect::<Vec<_>>()})
 }
 
 impl Ctx {
     fn seq(&mut self, ops: &[SOp], leave: bool, to_coq: bool) {
         let o = run_seq(ops, leave);
         let cj = seq_case_json(ops, leave);
+        // a history with an operation the Coq model does not know is judged by the oracle alone (cell `seqx`)
+        let ext = ops.iter().any(|x| x.is_ext());
+        let cell = if ext { "seqx" } else { "seq" };
+        let to_coq = to_coq && !ext;
         if leave { self.sum.dist("seq_histories_leaving_tokens_to_the_thread_exit_destructor"); }
-        let nm = ops.iter().filter(|x| matches!(x, SOp::NewTm(_) | SOp::NewVm(_))).count();
-        self.sum.eval("seq", &cj.to_string(), nm >= 2 && ops.len() >= 5);
+        let nm = ops.iter().filter(|x| matches!(x, SOp::NewTm(_) | SOp::NewVm(_) | SOp::NewTmShared(_))).count();
+        self.sum.eval(cell, &cj.to_string(), nm >= 2 && ops.len() >= 5);
+        if ext { for x in ops { if x.is_ext() { self.sum.dist(&format!("seqx_op_{}", x.json()[0].as_str().unwrap_or("?"))); } } }
         if o.dangling_shadow { self.sum.dist("seq_histories_releasing_after_manager_drop"); }
         if o.cross_shadow { self.sum.dist("seq_histories_with_cache_hit_across_managers"); }
         for (cls, f) in &o.failures {
-            self.sum.fail("seq", *cls, cj.clone(), f);
+            self.sum.fail(cell, *cls, cj.clone(), f);
         }
-        if (to_coq || !o.failures.is_empty()) && self.shards.len() < self.coq_budget && !o.failures.iter().any(|f| f.1.contains("panic")) {
+        if !ext && (to_coq || !o.failures.is_empty()) && self.shards.len() < self.coq_budget && !o.failures.iter().any(|f| f.1.contains("panic")) {
             let mut c = cj.clone();
             c["impl_obs"] = json!(o.obs.iter().map(|r| r.iter().map(|x| x.to_string()).collect::<Vec<_>>()).collect::<Vec<_>>());
             let term = format!("inr ({}, [{}], [{}])", coq_bool(leave),
@@ -864,6 +1303,117 @@ fn rand_seq(r: &mut Rng) -> Vec<SOp> {
         ops.push(op);
     }
     ops
+}
+
+
+/// Random sequential history over the whole operation set (model operations and oracle-only ones mixed), 1-4 managers some of
+/// which share one VersionManager.
+fn rand_seq_ext(r: &mut Rng) -> Vec<SOp> {
+    let mut ops = vec![];
+    let nm = r.range(1, 4) as usize;
+    let lv = |r: &mut Rng| *r.pick(&[3u8, 3, 3, 4, 4, 2, 1, 0]);
+    ops.push(if r.chance(3, 4) { SOp::NewTm(lv(r)) } else { SOp::NewVm(lv(r)) });
+    let n = r.range(4, 16);
+    let mut made = 1;
+    for _ in 0..n {
+        let m = r.below(made as u64) as usize;
+        let i = r.below(3) as usize;
+        let op = match r.below(30) {
+            0 | 1 => SOp::TmAcqR(m), 2 | 3 => SOp::TmAcqW(m), 4 => SOp::AcqR(m), 5 => SOp::AcqW(m),
+            6 | 7 => SOp::Ret(i, m), 8 | 9 => SOp::Drop(i),
+            10 => SOp::Clear,
+            11 => SOp::DropMgr(m),
+            12 | 13 => if made < nm {
+                made += 1;
+                match r.below(4) { 0 | 1 => SOp::NewTmShared(m), 2 => SOp::NewTm(lv(r)), _ => SOp::NewVm(lv(r)) }
+            } else { SOp::With(m, 1, 0) },
+            14 | 15 | 16 | 17 | 18 => SOp::With(m, r.below(2) as u8, *r.pick(&[0u8, 0, 1, 2, 2, 3, 4, 5])),
+            19 => SOp::ClearStats(m),
+            20 => SOp::Use(i),
+            21 | 22 => SOp::OcPut(i),
+            23 => SOp::OcGet(r.below(2) as u8),
+            24 | 25 => SOp::OcGetFor(r.below(2) as u8, m),
+            26 => SOp::OcClear,
+            27 | 28 => SOp::Send(i, r.below(2) as u8),
+            _ => SOp::TmAcqW(m),
+        };
+        ops.push(op);
+    }
+    ops
+}
+
+/// Deterministic small family: three doors (manager 0, a second TokenManager over manager 0's VersionManager, an unrelated
+/// manager 2), every history of length `len` over an alphabet that mixes the model operations with the oracle-only ones.
+fn staged_seqx(cx: &mut Ctx, thorough: bool) {
+    let alphabet = [
+        SOp::TmAcqW(0), SOp::TmAcqW(1), SOp::TmAcqR(1), SOp::AcqW(2),
+        SOp::With(0, 1, 0), SOp::With(1, 1, 2), SOp::With(1, 0, 5), SOp::With(2, 1, 1), SOp::With(0, 0, 3), SOp::With(1, 1, 4),
+        SOp::Ret(0, 1), SOp::Drop(0), SOp::Clear,
+        SOp::OcPut(0), SOp::OcGetFor(1, 2), SOp::OcGetFor(1, 1), SOp::OcGet(0),
+        SOp::Send(0, 1), SOp::ClearStats(1), SOp::DropMgr(0),
+    ];
+    let pairs: &[(u8, u8)] = if thorough { &[(3, 3), (4, 3), (3, 0), (2, 4), (1, 3), (0, 3), (3, 4)] } else { &[(3, 3), (4, 3), (3, 0), (2, 4)] };
+    let len = 3usize;
+    let total = alphabet.len().pow(len as u32);
+    let mut n = 0u64;
+    for (pi, &(l1, l2)) in pairs.iter().enumerate() {
+        for code in 0..total {
+            // quick: the (3,3) pair in full, a third of the others
+            if !thorough && pi > 0 && code % 3 != pi % 3 { continue; }
+            let mut ops = vec![SOp::NewTm(l1), SOp::NewTmShared(0), SOp::NewTm(l2)];
+            let mut c = code;
+            for _ in 0..len { ops.push(alphabet[c % alphabet.len()]); c /= alphabet.len(); }
+            cx.seq(&ops, code % 3 == 0, false);
+            n += 1;
+        }
+    }
+    cx.sum.dist_max("enumerated_seqx_histories", n);
+}
+
+/// Programs with the oracle-only operations for the schedule enumeration.
+fn fixed_programs_ext() -> Vec<(&'static str, Vec<Vec<Op>>, Option<usize>, Option<u64>, &'static [u8])> {
+    use Op::*;
+    vec![
+        // with_*_token = acquire through the cache + return to the cache, racing with itself and with plain acquisitions
+        ("withw|withw", vec![vec![WithW], vec![WithW]], Some(2), None, &[3, 4, 2, 1, 0]),
+        ("withw withw|w d", vec![vec![WithW, WithW], vec![AcqW, Drop(0)]], Some(2), None, &[3, 4]),
+        ("withr withw|withr|r d", vec![vec![WithR, WithW], vec![WithR], vec![AcqR, Drop(0)]], Some(1), None, &[3, 4, 2]),
+        // tokens released by another thread than the one that acquired them
+        ("r give|take d|r d", vec![vec![AcqR, Give(0)], vec![Take, Drop(0)], vec![AcqR, Drop(0)]], Some(2), None, &[3, 4, 2, 1]),
+        ("w give w|take ret tmw d", vec![vec![AcqW, Give(0), AcqW], vec![Take, Ret(0), TmAcqW, Drop(0)]], Some(2), None, &[3, 4]),
+        // queues beyond one and two bulk thresholds, reclaimed while a reader is live
+        ("w retN retN d bulk rec|r rec bulk d", vec![vec![AcqW, RetireN, RetireN, Drop(0), ReclaimBulk, Reclaim], vec![AcqR, Reclaim, ReclaimBulk, Drop(0)]], Some(2), None, &[3, 4, 2]),
+        ("w retN d rec|r retN rec d (threshold 0)", vec![vec![AcqW, RetireN, Drop(0), Reclaim], vec![AcqR, RetireN, ReclaimBulk, Drop(0)]], Some(1), Some(0), &[3, 4]),
+        ("w retN retN d rec|r rec d (unlimited)", vec![vec![AcqW, RetireN, RetireN, Drop(0), Reclaim], vec![AcqR, Reclaim, ReclaimBulk, Drop(0)]], Some(1), Some(u64::MAX), &[3, 4]),
+        // housekeeping in the middle of the traffic
+        ("r clr d|w clr d", vec![vec![AcqR, ClearStats, Drop(0)], vec![AcqW, ClearStats, Drop(0)]], Some(1), None, &[3, 4, 1]),
+    ]
+}
+
+fn rand_prog_ext(r: &mut Rng, len: usize) -> Vec<Op> {
+    let mut p = vec![];
+    let mut holding = 0usize;
+    for _ in 0..len {
+        let op = match r.below(20) {
+            0 => { holding += 1; Op::AcqR }
+            1 => { holding += 1; Op::AcqW }
+            2 => { holding += 1; Op::TmAcqR }
+            3 => { holding += 1; Op::TmAcqW }
+            4 | 5 => if holding > 0 { holding -= 1; Op::Drop(r.below(holding as u64 + 1) as usize) } else { Op::WithR },
+            6 => if holding > 0 { holding -= 1; Op::Ret(r.below(holding as u64 + 1) as usize) } else { Op::Clear },
+            7 | 8 => Op::WithR,
+            9 | 10 => Op::WithW,
+            11 | 12 => if holding > 0 { holding -= 1; Op::Give(r.below(holding as u64 + 1) as usize) } else { holding += 1; Op::AcqR },
+            13 | 14 => { holding += 1; Op::Take }
+            15 => Op::RetireN,
+            16 => Op::ReclaimBulk,
+            17 => Op::Reclaim,
+            18 => Op::ClearStats,
+            _ => Op::Retire,
+        };
+        p.push(op);
+    }
+    p
 }
 
 // ------------------------------------------------------------------------------------------------
@@ -914,14 +1464,15 @@ fn rand_prog(r: &mut Rng, len: usize, cache: bool) -> Vec<Op> {
 
 pub fn run(args: &Args) {
     let mut cx = Ctx {
-        sum: Summary::new("C16", "real threads parked at schedule hooks before every shared access of acquire/release/try_advance; all schedules with a bounded number of pre-emptions (all schedules for the single-operation races) of fixed 2-3 thread programs at every ConcurrencyLevel, random programs under random schedules, sequential histories over 1-3 managers with cached tokens and manager drops; a concurrent run is non-trivial when it has >= 2 context switches at a level that tracks versions, a sequential one when it has >= 2 managers and >= 5 operations; distinct = distinct (programs, executed schedule)"),
+        sum: Summary::new("C16", "real threads parked at schedule hooks before every shared access of acquire/release/try_advance; all schedules with a bounded number of pre-emptions (all schedules for the single-operation races) of fixed 2-3 thread programs at every ConcurrencyLevel, random programs under random schedules, sequential histories over 1-3 managers with cached tokens and manager drops; a concurrent run is non-trivial when it has >= 2 context switches at a level that tracks versions, a sequential one when it has >= 2 managers and >= 5 operations; distinct = distinct (programs, executed schedule). Oracle breadth (cells concx/L*, seqx, long, lazy_free_list; oracle only, not replayed by the model): with_reader_token / with_writer_token (closure succeeds, fails, panics, asks for a second token, nested) and TokenAccess::{read,write}_with_manager, TokenManager::with_version_manager (several doors to one set of counters), a TokenCache owned by the history (cache_*_token, get_*_token, get_*_token_for, clear), tokens handed to and released by another thread (dropped, cached there, thread exit), clear_all_stats / clear_stats between operations, validate_token_version and issued_by of every held token against every manager after every step, VersionManagerStats::active_readers/active_writers against the counters, tokens lent to CompressedSparseTrie::*_with_token, LazyFreeList::{default, with_bulk_threshold 0..usize::MAX, should_bulk_process-gated processing, clear_stats, can_free}, 40-item retirements in controlled runs, generated single-thread histories of up to 500000 operations (named by level, n, seed, threshold) with versions and queues beyond 2^16"),
         shards: CoqShards::new(HEADER, 300),
         coq_budget: if args.thorough { 6000 } else { 1200 },
         rng: Rng::new(args.seed),
         runs: 0,
     };
-    for l in 0..5u8 { cx.sum.cell_status(&format!("conc/L{}", l), "M+S"); }
+    for l in 0..5u8 { cx.sum.cell_status(&format!("conc/L{}", l), "M+S"); cx.sum.cell_status(&format!("concx/L{}", l), "S-only"); }
     cx.sum.cell_status("seq", "M+S");
+    cx.sum.cell_status("seqx", "S-only");
     if let Some(f) = &args.replay {
         let txt = std::fs::read_to_string(f).expect("replay file");
         let v: Value = serde_json::from_str(&txt).expect("replay json");
@@ -958,12 +1509,24 @@ pub fn run(args: &Args) {
         }
     }
     cx.sum.sample(json!({"kind": "enumerated schedules", "programs": fixed_programs().iter().map(|x| x.0).collect::<Vec<_>>()}));
+    cx.sum.dist_max("phase_ms_enumerated_schedules", t0.elapsed().as_millis() as u64);
+    // 2x. the same exploration for programs with the oracle-only operations (with_*_token, tokens handed to another thread,
+    //     queues beyond the bulk thresholds, clear_all_stats), oracle only
+    let per_prog_x = if args.thorough { 6000 } else { 400 };
+    for (name, progs, bound, bulk, levels) in fixed_programs_ext() {
+        for &level in levels {
+            let bound = match (bound, args.thorough) { (Some(b), true) => Some(b + 1), (b, _) => b };
+            let n = cx.explorex(level, &progs, bound, per_prog_x, 0, bulk);
+            cx.sum.dist_max(&format!("schedules_x[{}]L{}", name, level), n as u64);
+        }
+    }
+    cx.sum.dist_max("phase_ms_enumerated_schedules_x", t0.elapsed().as_millis() as u64);
     // 3. random programs, random schedules
     cx.coq_budget = total_coq * 9 / 12;
     let nrand = if args.thorough { 400000 } else { 8000 };
     // the random phases also stop on a wall-clock budget (every case is still derived from the seed
     // in order, so a failing case replays from its replay file whatever the machine speed was)
-    let (t_rand, t_seq) = if args.thorough { (1000u64, 1300u64) } else { (70u64, 95u64) };
+    let (t_rand, t_seq) = if args.thorough { (1000u64, 1300u64) } else { (70u64, 100u64) };
     for k in 0..nrand {
         if t0.elapsed().as_secs() > t_rand { cx.sum.dist("random_phase_cut_by_time"); break; }
         let mut r = Rng::new(cx.rng.next());
@@ -974,8 +1537,23 @@ pub fn run(args: &Args) {
         // switch probability per step: mostly rare switches (few pre-emptions), sometimes frantic
         let den = *r.pick(&[2u64, 4, 8, 8, 16]);
         let o = cx.conc(level, &progs, Chooser::Random(Rng::new(r.next()), den), k % 10 == 0);
-        if k < 3 { cx.sum.sample(json!({"kind": "random", "case": conc_case_json(level, &progs, &o.sched)})); }
+        if k < 3 { cx.sum.sample(json!({"kind": "random", "case": conc_case_json(level, &progs, &o.sched, None)})); }
     }
+    cx.sum.dist_max("phase_ms_random_schedules", t0.elapsed().as_millis() as u64);
+    // 3x. random programs over the whole operation set, random thresholds of the shared list, oracle only
+    let nrand_x = if args.thorough { 60000 } else { 2500 };
+    for k in 0..nrand_x {
+        if t0.elapsed().as_secs() > t_rand + (if args.thorough { 150 } else { 10 }) { cx.sum.dist("random_x_phase_cut_by_time"); break; }
+        let mut r = Rng::new(cx.rng.next());
+        let level = *r.pick(&[3u8, 3, 3, 4, 4, 2, 1, 0]);
+        let nt = if r.chance(1, 3) { 3 } else { 2 };
+        let progs: Vec<Vec<Op>> = (0..nt).map(|_| { let len = r.range(1, 5) as usize; rand_prog_ext(&mut r, len) }).collect();
+        let bulk = *r.pick(&[None, None, Some(0u64), Some(1), Some(2), Some(20), Some(u64::MAX)]);
+        let den = *r.pick(&[2u64, 4, 8, 8, 16]);
+        let o = cx.concx(level, &progs, Chooser::Random(Rng::new(r.next()), den), false, bulk);
+        if k < 1 { cx.sum.sample(json!({"kind": "random_x", "case": conc_case_json(level, &progs, &o.sched, bulk)})); }
+    }
+    cx.sum.dist_max("phase_ms_random_schedules_x", t0.elapsed().as_millis() as u64);
     // 4. sequential histories over several managers
     cx.coq_budget = total_coq;
     // 4a. every history of a fixed length over two OneWriteMultiRead TokenManagers and the alphabet
@@ -1013,7 +1591,24 @@ pub fn run(args: &Args) {
         cx.sum.dist_max("enumerated_cross_level_histories", (24 * total) as u64);
     }
     // 4c. the lazy free list on its own: queues longer than one and two bulk thresholds, reclaimed at every cut point
+    cx.sum.dist_max("phase_ms_enumerated_histories", t0.elapsed().as_millis() as u64);
     lazy_cells(&mut cx, args.thorough);
+    cx.sum.dist_max("phase_ms_lazy", t0.elapsed().as_millis() as u64);
+    // 4d. oracle breadth: the staged family over three doors, long generated histories, random histories over the whole operation set
+    staged_seqx(&mut cx, args.thorough);
+    cx.sum.dist_max("phase_ms_staged_seqx", t0.elapsed().as_millis() as u64);
+    long_cells(&mut cx, args.thorough);
+    cx.sum.dist_max("phase_ms_long", t0.elapsed().as_millis() as u64);
+    let nseq_x = if args.thorough { 120000 } else { 4000 };
+    for k in 0..nseq_x {
+        if t0.elapsed().as_secs() > t_seq { cx.sum.dist("sequential_x_phase_cut_by_time"); break; }
+        let mut r = Rng::new(cx.rng.next());
+        let ops = rand_seq_ext(&mut r);
+        let leave = r.chance(1, 4);
+        cx.seq(&ops, leave, false);
+        if k < 1 { cx.sum.sample(seq_case_json(&ops, leave)); }
+    }
+    cx.sum.dist_max("phase_ms_random_seqx", t0.elapsed().as_millis() as u64);
     let nseq = if args.thorough { 300000 } else { 5000 };
     for k in 0..nseq {
         if t0.elapsed().as_secs() > t_seq { cx.sum.dist("sequential_phase_cut_by_time"); break; }
@@ -1029,21 +1624,241 @@ pub fn run(args: &Args) {
     cx.sum.write(&args.out, sh);
 }
 
+
+// ------------------------------------------------------------------------------------------------
+// long single-thread histories: version manager + token manager(s) + lazy free list together
+// ------------------------------------------------------------------------------------------------
+/// One thread, `n` generated operations (the case names them by (level, n, seed, bulk, shared) only): tokens acquired directly and
+/// through the cache (a second TokenManager over the same VersionManager when `shared`), held in numbers, dropped and cached in
+/// any order, `with_*_token`, items retired at the current version into a LazyFreeList of threshold `bulk` and reclaimed with
+/// `min_version()` (always, or only when `should_bulk_process()`), statistics cleared now and then.  Versions pass 2^16, the queue
+/// passes one and two bulk thresholds many times, an old reader is kept alive for long stretches.  After EVERY operation:
+/// (i) <= 1 held writer at level 3, (ii) min_version() <= oldest held version and every freed item is older than every held token,
+/// freed oldest first, none lost, (iii) held <= counter <= held + cached, zero at the end.
+fn long_case(cx: &mut Ctx, level: u8, n: u64, seed: u64, bulk: u64, shared: bool) {
+    let cell = "long";
+    let cj = json!({"cell": "long", "level": level, "n": n, "seed": seed, "bulk": bulk.to_string(), "shared": shared});
+    cx.sum.eval(cell, &cj.to_string(), n >= 100);
+    let stats = Arc::new(Mutex::new((0u64, 0u64, 0u64)));   // longest queue, last version, items freed
+    let stats2 = stats.clone();
+    let h = std::thread::spawn(move || -> Option<String> {
+        let r = guarded(|| -> Option<String> {
+            let mut r = Rng::new(seed);
+            let mut nfreed = 0u64;
+            let tm = TokenManager::new(level_of(level));
+            let tm2 = if shared { TokenManager::with_version_manager(tm.version_manager().clone()) } else { TokenManager::new(level_of(level)) };
+            let vm = tm.version_manager().clone();
+            let mut lazy = if bulk == u64::MAX - 1 { LazyFreeList::default() } else { LazyFreeList::with_bulk_threshold(bulk.min(usize::MAX as u64) as usize) };
+            let mut queue: std::collections::VecDeque<(u64, u32)> = Default::default();
+            let mut next_id = 0u32;
+            let mut held: Vec<(Tok, u8, u64)> = vec![];                       // token, kind, version
+            let mut versions: std::collections::BTreeMap<u64, u64> = Default::default();   // versions of held tracked tokens
+            let mut nheld = [0u64; 2];
+            let mut cached: [Option<(u8, u64)>; 2] = [None, None];             // kind, version in the thread cache (tm's or tm2's state)
+            let mut cached_of_tm2 = [false; 2];
+            let mut dirty = false;
+            let mut max_q = 0usize;
+            let cap = 60usize;
+            for step in 0..=n {
+                let last = step == n;
+                let c = if last { 99 } else { r.below(24) };
+                let mut freed: Vec<(u64, u32)> = vec![];
+                let mut what = "";
+                let add = |held: &mut Vec<(Tok, u8, u64)>, versions: &mut std::collections::BTreeMap<u64, u64>, nheld: &mut [u64; 2], t: Tok| {
+                    let i = t.info(0);
+                    if i.kind < 2 { *versions.entry(i.version).or_insert(0) += 1; nheld[i.kind as usize] += 1; }
+                    held.push((t, i.kind, i.version));
+                };
+                let del = |versions: &mut std::collections::BTreeMap<u64, u64>, nheld: &mut [u64; 2], k: u8, v: u64| {
+                    if k < 2 { nheld[k as usize] -= 1; let e = versions.get_mut(&v).unwrap(); *e -= 1; if *e == 0 { versions.remove(&v); } }
+                };
+                match c {
+                    0 | 1 | 2 if held.len() < cap => { what = "acquire_reader_token"; if let Ok(t) = vm.acquire_reader_token() { add(&mut held, &mut versions, &mut nheld, Tok::R(t)); } }
+                    3 | 4 if held.len() < cap => { what = "acquire_writer_token"; if let Ok(t) = vm.acquire_writer_token() { add(&mut held, &mut versions, &mut nheld, Tok::W(t)); } }
+                    5 | 6 if held.len() < cap => {
+                        // through the cache of either door; with separate managers the second one must not reuse the first one's token
+                        let second = r.chance(1, 3);
+                        let w = r.chance(1, 2);
+                        what = "TokenManager::acquire_*_token";
+                        let door = if second { &tm2 } else { &tm };
+                        let h0 = cache_hits(&tm);
+                        let got = if w { door.acquire_writer_token().ok().map(Tok::W) } else { door.acquire_reader_token().ok().map(Tok::R) };
+                        if cache_hits(&tm) > h0 {
+                            // (read-only tokens carry no manager state: any read-only manager may hand them out)
+                            if !shared && level != 0 && cached_of_tm2[w as usize] != second { return Some(format!("step {}: a TokenManager handed out the token cached through an unrelated manager", step)); }
+                            cached[w as usize] = None;
+                        }
+                        if let Some(t) = got {
+                            if !shared && second { drop(t); } else { add(&mut held, &mut versions, &mut nheld, t); }
+                        }
+                    }
+                    7 | 8 | 9 | 10 if !held.is_empty() => {
+                        what = "drop";
+                        // mostly the newest tokens go first, so that old ones stay alive for long
+                        let i = if r.chance(2, 3) { held.len() - 1 - r.below(held.len().min(4) as u64) as usize } else { r.below(held.len() as u64) as usize };
+                        let (t, k, v) = held.remove(i);
+                        del(&mut versions, &mut nheld, k, v);
+                        drop(t);
+                    }
+                    11 if !held.is_empty() => {
+                        what = "return_*_token";
+                        let i = r.below(held.len() as u64) as usize;
+                        let (t, k, v) = held.remove(i);
+                        del(&mut versions, &mut nheld, k, v);
+                        let slot = (k == 1) as usize;
+                        cached[slot] = Some((k, v));
+                        cached_of_tm2[slot] = false;
+                        match t { Tok::R(x) => tm.return_reader_token(x), Tok::W(x) => tm2.return_writer_token(x) }
+                    }
+                    12 | 13 => {
+                        what = "with_*_token";
+                        let w = r.chance(1, 2);
+                        let slot = w as usize;
+                        let h0 = cache_hits(&tm);
+                        let low = versions.keys().next().copied();
+                        let mut bad: Option<String> = None;
+                        let hw = nheld[1];
+                        let mut ran: Option<(u8, u64)> = None;
+                        let mut inside = |k: u8, v: u64| {
+                            ran = Some((k, v));
+                            let m = vm.min_version();
+                            if k < 2 && (m > v || low.map_or(false, |l| m > l)) { bad = Some(format!("step {}: inside with_*_token min_version() = {} with live tokens of versions {} and {:?}", step, m, v, low)); }
+                            if k == 1 && level == 3 && hw >= 1 { bad = Some(format!("step {}: with_writer_token ran while {} writer tokens are held (OneWriteMultiRead)", step, hw)); }
+                            let cnt = if k == 1 { vm.active_writers() } else { vm.active_readers() };
+                            if k < 2 && cnt < nheld[k as usize] + 1 { bad = Some(format!("step {}: inside with_*_token the manager counts {} tokens, {} are held and one is lent", step, cnt, nheld[k as usize])); }
+                        };
+                        if w { let _ = with_writer_token(&tm, |t| { inside(1, t.version()); Ok(()) }); }
+                        else { let _ = with_reader_token(&tm, |t| { inside(if t.is_readonly() { 2 } else { 0 }, t.version()); Ok(()) }); }
+                        if let Some(b) = bad { return Some(b); }
+                        if let Some(kv) = ran { let _ = cache_hits(&tm) > h0; cached[slot] = Some(kv); cached_of_tm2[slot] = false; }
+                    }
+                    14 | 15 | 16 => { what = "retire"; for _ in 0..r.range(1, 4) { let a = vm.current_version(); lazy.push(LazyFreeItem::new(a, next_id, 8)); queue.push_back((a, next_id)); next_id += 1; } }
+                    17 | 18 => { what = "process_safe_items(min_version())"; let m = vm.min_version(); let k = lazy.process_safe_items(m, |it| freed.push((it.age, it.memory_offset))); if k != freed.len() { return Some(format!("step {}: process_safe_items returned {} and freed {} items", step, k, freed.len())); } }
+                    19 => { what = "should_bulk_process -> process_safe_items(min_version())"; if lazy.should_bulk_process() { let m = vm.min_version(); lazy.process_safe_items(m, |it| freed.push((it.age, it.memory_offset))); } }
+                    20 if r.chance(1, 8) => { what = "clear stats"; dirty = true; let _ = if r.chance(1, 2) { tm.clear_all_stats() } else { vm.clear_stats() }; lazy.clear_stats(); }
+                    21 => { what = "clear_thread_cache"; cached = [None, None]; tm2.clear_thread_cache(); }
+                    99 => { what = "release everything"; held.clear(); versions.clear(); nheld = [0, 0]; cached = [None, None]; tm.clear_thread_cache(); }
+                    _ => {}
+                }
+                if queue.len() > max_q { max_q = queue.len(); }
+                nfreed += freed.len() as u64;
+                if step % 1024 == 0 || last { *stats2.lock().unwrap() = (max_q as u64, vm.current_version(), nfreed); }
+                // ---- oracle
+                let low = versions.keys().next().copied();
+                for f in &freed {
+                    if let Some(l) = low { if f.0 >= l { return Some(format!("step {} ({}): the item retired at version {} was handed to the free callback while a token of version {} is held", step, what, f.0, l)); } }
+                    match queue.pop_front() { Some(x) if x == *f => {}, other => return Some(format!("step {} ({}): freed item {:?} is not the oldest queued item {:?}", step, what, f, other)) }
+                }
+                if lazy.len() != queue.len() { return Some(format!("step {} ({}): the list holds {} items, {} are queued", step, what, lazy.len(), queue.len())); }
+                let (min, cur, ar, aw) = (vm.min_version(), vm.current_version(), vm.active_readers(), vm.active_writers());
+                if let Some(l) = low {
+                    if min > l { return Some(format!("step {} ({}): min_version() = {} exceeds the version {} of a held token", step, what, min, l)); }
+                    if !vm.validate_token_version(l) { return Some(format!("step {} ({}): validate_token_version({}) is false for a held token (min {}, current {})", step, what, l, min, cur)); }
+                }
+                if level == 3 && nheld[1] > 1 { return Some(format!("step {} ({}): {} writer tokens are held at once in OneWriteMultiRead", step, what, nheld[1])); }
+                for (k, name, cnt) in [(0usize, "active_readers", ar), (1usize, "active_writers", aw)] {
+                    let maybe = cached.iter().flatten().filter(|x| x.0 as usize == k).count() as u64;
+                    if cnt < nheld[k] || cnt > nheld[k] + maybe { return Some(format!("step {} ({}): {} = {} with {} held and {} cached tokens", step, what, name, cnt, nheld[k], maybe)); }
+                }
+                if !dirty && step % 64 == 0 {
+                    if let Ok(st) = vm.stats() {
+                        if st.active_readers() != ar as i64 || st.active_writers() != aw as i64 { return Some(format!("step {} ({}): stats() reports {} / {} active tokens, the manager {} / {}", step, what, st.active_readers(), st.active_writers(), ar, aw)); }
+                    }
+                }
+            }
+            let _ = max_q;
+            None
+        });
+        match r { Ok(x) => x, Err(p) => Some(format!("panicked: {}", p)) }
+    });
+    let res = h.join();
+    let st = *stats.lock().unwrap_or_else(|e| e.into_inner());
+    cx.sum.dist_max("long_longest_queue", st.0);
+    cx.sum.dist_max("long_highest_version", st.1);
+    cx.sum.dist_max("long_most_items_freed", st.2);
+    match res {
+        Ok(None) => {}
+        Ok(Some(m)) => cx.sum.fail(cell, None, cj, &m),
+        Err(_) => cx.sum.fail(cell, None, cj, "the history thread died"),
+    }
+}
+fn long_cells(cx: &mut Ctx, thorough: bool) {
+    cx.sum.cell_status("long", "S-only");
+    const DEF: u64 = u64::MAX - 1; // LazyFreeList::default()
+    let big = if thorough { 3_000_000 } else { 500_000 };
+    for (i, &(level, n, bulk, shared)) in [
+        (3u8, big, DEF, true), (4, big, 32, false), (2, big, DEF, false), (4, 70_000, u64::MAX, true), (3, 70_000, 0, false),
+        (1, 5_000, DEF, true), (0, 5_000, 1, false), (4, 20_000, 33, true), (3, 20_000, 64, true), (2, 20_000, 2, true),
+    ].iter().enumerate() {
+        long_case(cx, level, n, 0x16_0000 + i as u64, bulk, shared);
+    }
+    let nr = if thorough { 400 } else { 60 };
+    for _ in 0..nr {
+        let mut r = Rng::new(cx.rng.next());
+        let level = *r.pick(&[3u8, 3, 4, 4, 2, 1, 0]);
+        let bulk = *r.pick(&[DEF, DEF, 0, 1, 2, 5, 32, 64, u64::MAX]);
+        let n = *r.pick(&[300u64, 1000, 3000]);
+        long_case(cx, level, n, r.next(), bulk, r.chance(1, 2));
+    }
+}
+
 /// LazyFreeList alone (oracle-only cell): items are pushed with non-decreasing ages (they are retired at the current version),
 /// `process_safe_items(min_version)` may hand an item to the free callback only if its age is below `min_version` - i.e. no
 /// token of that version or older can still see it -, hands them out oldest first, loses none and reports how many it freed.
-fn lazy_case(cx: &mut Ctx, threshold: u64, script: &[(u64, u64)]) {
+/// A big script is named by (kind, n, seed) and generated here: n pushes with slowly growing ages (`ramp`) or long runs of one
+/// age (`steps`), a reclaim (plain or gated by `should_bulk_process`) every 50 operations or so, at a cut inside the queue.
+fn lazy_gen_script(kind: &str, n: u64, seed: u64) -> Vec<(u64, u64)> {
+    let mut r = Rng::new(seed);
+    let mut script = vec![];
+    let mut age = 1u64;
+    let mut oldest_guess = 1u64;
+    for i in 0..n {
+        match kind { "steps" => if i % 97 == 96 { age += 1 + r.below(2); }, _ => age += r.below(3) }
+        script.push((0, age));
+        if r.chance(1, 50) {
+            let cut = if r.chance(1, 4) { age + 1 } else { oldest_guess + r.below(age - oldest_guess + 2) };
+            script.push((if r.chance(1, 3) { 2 } else { 1 }, cut));
+            if r.chance(1, 10) { script.push((3, 0)); }
+            oldest_guess = oldest_guess.max(cut.min(age));
+        }
+    }
+    script
+}
+const LAZY_NEW: u64 = u64::MAX;          // LazyFreeList::new()
+const LAZY_UNLIMITED: u64 = u64::MAX - 1; // with_bulk_threshold(usize::MAX): "no limit per call"
+const LAZY_DEFAULT: u64 = u64::MAX - 2;   // LazyFreeList::default()
+fn lazy_case(cx: &mut Ctx, threshold: u64, script: &[(u64, u64)]) { lazy_case_g(cx, threshold, script, None) }
+/// Script operations: (0, age) push; (1, v) process_safe_items(v); (2, v) the same, but only when should_bulk_process() says so;
+/// (3, _) clear_stats (housekeeping in the middle).
+fn lazy_case_g(cx: &mut Ctx, threshold: u64, script: &[(u64, u64)], gen: Option<(&str, u64, u64)>) {
     let cell = "lazy_free_list";
-    let cj = json!({"cell": "lazy", "threshold": threshold, "script": script.iter().map(|(a, b)| json!([a, b])).collect::<Vec<_>>()});
+    let generated: Vec<(u64, u64)>;
+    let (script, cj) = match gen {
+        Some((kind, n, seed)) => {
+            generated = lazy_gen_script(kind, n, seed);
+            (&generated[..], json!({"cell": "lazy", "threshold": threshold, "gen": {"kind": kind, "n": n, "seed": seed}}))
+        }
+        None => (script, json!({"cell": "lazy", "threshold": threshold, "script": script.iter().map(|(a, b)| json!([a, b])).collect::<Vec<_>>()})),
+    };
     cx.sum.eval(cell, &cj.to_string(), script.len() >= 3);
     let r = guarded(|| -> Option<String> {
-        let mut l = if threshold == u64::MAX { LazyFreeList::new() } else { LazyFreeList::with_bulk_threshold(threshold as usize) };
+        let mut l = match threshold {
+            LAZY_NEW => LazyFreeList::new(), LAZY_DEFAULT => LazyFreeList::default(), LAZY_UNLIMITED => LazyFreeList::with_bulk_threshold(usize::MAX),
+            t => LazyFreeList::with_bulk_threshold(t as usize),
+        };
         let mut shadow: std::collections::VecDeque<(u64, u32)> = Default::default();
         let mut next_id = 0u32;
         for (step, &(op, v)) in script.iter().enumerate() {
             if op == 0 {
                 l.push(LazyFreeItem::new(v, next_id, 8)); shadow.push_back((v, next_id)); next_id += 1;
+            } else if op == 3 {
+                l.clear_stats();
             } else {
+                // what the list's own predicate says about the oldest item: never "free" at or after its version
+                if let Some(&(a, id)) = shadow.front() {
+                    if a >= v && LazyFreeItem::new(a, id, 8).can_free(v) { return Some(format!("step {}: can_free({}) is true for an item retired at version {}", step, v, a)); }
+                }
+                if op == 2 && !l.should_bulk_process() { continue; }
                 let mut freed: Vec<(u64, u32)> = vec![];
                 let n = l.process_safe_items(v, |it| freed.push((it.age, it.memory_offset)));
                 if n != freed.len() { return Some(format!("step {}: process_safe_items({}) returned {} but freed {} items", step, v, n, freed.len())); }
@@ -1074,8 +1889,8 @@ fn lazy_case(cx: &mut Ctx, threshold: u64, script: &[(u64, u64)]) {
 }
 fn lazy_cells(cx: &mut Ctx, thorough: bool) {
     cx.sum.cell_status("lazy_free_list", "S-only");
-    for &th in &[u64::MAX, 0, 1, 2, 5, 32] {
-        let t = if th == u64::MAX { 32 } else { th.max(1) } as u64;
+    for &th in &[LAZY_NEW, 0, 1, 2, 5, 32, LAZY_DEFAULT, LAZY_UNLIMITED] {
+        let t = if th >= LAZY_DEFAULT { 32 } else { th.max(1) } as u64;
         for &n in &[0u64, 1, t - 1 + (t == 1) as u64, t, t + 1, 2 * t - 1, 2 * t, 2 * t + 1, 3 * t + 7] {
             for step in [0u64, 1, 2] {
                 // ages 10, 10+step, ...; one reclaim at each interesting cut, then more pushes and a second reclaim
@@ -1090,7 +1905,8 @@ fn lazy_cells(cx: &mut Ctx, thorough: bool) {
                     script.push((1, c));
                     let last = ages.last().copied().unwrap_or(10);
                     script.extend((0..3).map(|j| (0, last + j)));
-                    script.push((1, c.saturating_add(1)));
+                    // the second reclaim plain, gated by should_bulk_process, or after a clear_stats
+                    match k % 3 { 0 => script.push((1, c.saturating_add(1))), 1 => { script.push((2, c.saturating_add(1))); script.push((1, c)); } _ => { script.push((3, 0)); script.push((1, c.saturating_add(1))); } }
                     lazy_case(cx, th, &script);
                 }
             }
@@ -1099,22 +1915,38 @@ fn lazy_cells(cx: &mut Ctx, thorough: bool) {
     let nr = if thorough { 3000 } else { 300 };
     for _ in 0..nr {
         let mut r = Rng::new(cx.rng.next());
-        let th = *r.pick(&[u64::MAX, 0, 1, 3, 8, 32]);
+        let th = *r.pick(&[LAZY_NEW, 0, 1, 3, 8, 32, LAZY_DEFAULT, LAZY_UNLIMITED, 64]);
         let mut age = r.below(5);
         let mut script = vec![];
         for _ in 0..r.range(1, 120) {
             if r.chance(5, 6) { age += r.below(3); script.push((0, age)); }
-            else { let c = if r.chance(1, 2) { age.saturating_sub(r.below(40)) } else { r.below(age + 3) }; script.push((1, c)); }
+            else {
+                let c = if r.chance(1, 2) { age.saturating_sub(r.below(40)) } else { r.below(age + 3) };
+                script.push((*r.pick(&[1u64, 1, 1, 2, 2, 3]), c));
+            }
         }
         lazy_case(cx, th, &script);
+    }
+    // queues far beyond the thresholds (and beyond 2^16 entries), named by (kind, n, seed)
+    for (i, &(th, kind, n)) in [(LAZY_NEW, "ramp", 70_000u64), (LAZY_UNLIMITED, "ramp", 70_000), (64, "steps", 70_000), (LAZY_DEFAULT, "steps", 20_000),
+                                (1, "ramp", 3_000), (0, "steps", 3_000), (33, "ramp", 9_000)].iter().enumerate() {
+        if !thorough && i >= 5 { break; }
+        lazy_case_g(cx, th, &[], Some((kind, n, 0x1a27 + i as u64)));
     }
 }
 
 fn run_case(cx: &mut Ctx, c: &Value) {
-    if c["cell"].as_str() == Some("lazy") {
+    if c["cell"].as_str() == Some("long") {
+        let bulk = c["bulk"].as_str().and_then(|x| x.parse::<u64>().ok()).or(c["bulk"].as_u64()).unwrap_or(u64::MAX - 1);
+        long_case(cx, c["level"].as_u64().unwrap_or(3) as u8, c["n"].as_u64().unwrap_or(1000), c["seed"].as_u64().unwrap_or(0), bulk, c["shared"].as_bool().unwrap_or(false));
+    } else if c["cell"].as_str() == Some("lazy") {
         let script: Vec<(u64, u64)> = c["script"].as_array().map(|a| a.iter().map(|x| (x[0].as_u64().unwrap_or(0), x[1].as_u64().unwrap_or(0))).collect()).unwrap_or_default();
-        lazy_case(cx, c["threshold"].as_u64().unwrap_or(u64::MAX), &script);
-    } else if c["cell"].as_str() == Some("seq") {
+        let th = c["threshold"].as_u64().unwrap_or(u64::MAX);
+        match c["gen"]["kind"].as_str() {
+            Some(kind) => lazy_case_g(cx, th, &[], Some((kind, c["gen"]["n"].as_u64().unwrap_or(0), c["gen"]["seed"].as_u64().unwrap_or(0)))),
+            None => lazy_case(cx, th, &script),
+        }
+    } else if matches!(c["cell"].as_str(), Some("seq") | Some("seqx")) {
         let ops: Vec<SOp> = c["ops"].as_array().map(|a| a.iter().filter_map(SOp::parse).collect()).unwrap_or_default();
         cx.seq(&ops, c["leave"].as_bool().unwrap_or(false), true);
     } else {
